@@ -97,3 +97,173 @@ Example C07_session_example :
   snd (exec true (after sess op result (exec true) (prepare ex_plan (ex_api 0)) h) (ORun None false [] (sched ex_plan [] 7)))
     = {| r_status := ROk; r_items := [1]; r_api := ex_api 0 |}.
 Proof. vm_compute. split; reflexivity. Qed.
+
+(* ==========================================================================================================
+   Part 2 (Model/Args.v): the caller's argument objects.  A world holds the caller's Feature objects (hF) and Options
+   objects (hO) by address, the links set object, and the GlobalFilter (filters, collection); plan_call is
+   mlodaAPI.prepare (= the planning half of run_all) as a transformer of that world.  Full statement of the property:
+
+     (* forall histories cs and calls c:  outcome (plan_call (after w0 cs) c) ~ outcome (plan_call w0 c) *)
+
+   It is FALSE for the code as it is (filter_reuse_refuted, links_reuse_refuted below); it is proved outside the two
+   decidable domains kf_filter_touched and kf_links (args_reuse_partial). *)
+Require Import MV.Model.Args MV.Proofs.ArgsP.
+
+(* copy_features=True (the default): whatever the call does -- succeed, fail half way, be rejected -- the caller's
+   Feature and Options objects are exactly what they were; also over any sequence of such calls. *)
+Theorem copy_features_frame : forall u fuel w c, c_copy c = true ->
+  hF (fst (plan_call u fuel w c)) = hF w /\ hO (fst (plan_call u fuel w c)) = hO w.
+Proof. exact copy_features_frame_l. Qed.
+Print Assumptions copy_features_frame.
+
+Theorem copy_features_frame_history : forall u fuel cs w, forallb c_copy cs = true ->
+  hF (after world call outcome (plan_call u fuel) w cs) = hF w /\
+  hO (after world call outcome (plan_call u fuel) w cs) = hO w.
+Proof. exact copy_features_frame_history_l. Qed.
+Print Assumptions copy_features_frame_history.
+
+(* What a call writes into caller-owned Feature / Options objects, for both values of copy_features (Inv, f_evolves,
+   o_evolves in Proofs/ArgsP.v): the heaps keep their size; of a Feature, name / options reference / uuid / link are never
+   written, initial_requested_data is only raised, compute_frameworks only set when unset, data_type only set when unset;
+   of an Options object the context is never written and the group is only extended by the keys "ApiInputData" /
+   "strict_type_enforcement"; an object is written at all only if copy_features=False and it is a requested feature,
+   resp. the Options object of a requested feature.  GlobalFilter.filters is never written. *)
+Theorem prepare_args_effect : forall u fuel w c,
+  Inv (if c_copy c then [] else c_feats c) (hF w, hO w)
+      (hF (fst (plan_call u fuel w c)), hO (fst (plan_call u fuel w c))) /\
+  w_filters (fst (plan_call u fuel w c)) = w_filters w.
+Proof. exact prepare_args_effect_l. Qed.
+Print Assumptions prepare_args_effect.
+
+(* The caller's links set (even with copy_features=True): never shrinks, untouched when links=None is passed, otherwise
+   left as it was or extended by exactly the add calls of the traversal -- each of which adds the Link attached to a
+   feature the call stored (requested, or created by a group's input_features). *)
+Theorem links_set_grows : forall u fuel w c,
+  incl (w_links w) (w_links (fst (plan_call u fuel w c))) /\
+  (c_links c = false -> w_links (fst (plan_call u fuel w c)) = w_links w) /\
+  (w_links (fst (plan_call u fuel w c)) = w_links w \/
+   w_links (fst (plan_call u fuel w c)) = apply_links (w_links w) (call_ladds u fuel w c)).
+Proof. exact links_set_grows_l. Qed.
+Print Assumptions links_set_grows.
+
+Theorem call_adds_provenance : forall u fuel w c,
+  (forall x, In x (call_ladds u fuel w c) -> exists p, In p (snd (call_products u fuel w c)) /\ pf_link p = Some x) /\
+  (forall kx, In kx (fst (call_products u fuel w c)) -> touches (snd (call_products u fuel w c)) (fst kx) = true).
+Proof. exact call_adds_provenance_l. Qed.
+Print Assumptions call_adds_provenance.
+
+(* The caller's GlobalFilter.collection: entries are only ever added, never removed or reset. *)
+Theorem filter_collection_accumulates : forall u fuel w c,
+  (forall k, incl (coll_get (w_coll w) k) (coll_get (w_coll (fst (plan_call u fuel w c))) k)) /\
+  (c_filter c = false -> w_coll (fst (plan_call u fuel w c)) = w_coll w).
+Proof. exact filter_collection_accumulates_l. Qed.
+Print Assumptions filter_collection_accumulates.
+
+(* filter_reuse: (full statement: forall w c, snd (plan_call w c) = snd (plan_call (set_coll w []) c)) -- refuted.
+   Proved when the collection holds no entry under a key (group, name) of a feature the call stores: then the outcome
+   is EXACTLY that of a GlobalFilter whose collection starts empty. *)
+Theorem filter_reuse_partial : forall u fuel w c, kf_filter_touched u fuel w c = false ->
+  snd (plan_call u fuel w c) = snd (plan_call u fuel (set_coll w []) c).
+Proof. exact filter_reuse_partial_l. Qed.
+Print Assumptions filter_reuse_partial.
+
+Theorem filter_reuse_refuted :
+  let c1 := cl [0] true false true None in let c2 := cl [1] true false true None in
+  let w1 := fst (plan_call exu 8 (exw []) c1) in
+  is_accepted (snd (plan_call exu 8 (exw []) c1)) = true /\
+  hF w1 = hF (exw []) /\ hO w1 = hO (exw []) /\ w_filters w1 = w_filters (exw []) /\
+  snd (plan_call exu 8 w1 c2) = Failed ERejected /\
+  is_accepted (snd (plan_call exu 8 (exw []) c2)) = true /\
+  kf_filter exu 8 w1 c2 = true /\ kf_filter_touched exu 8 w1 c2 = true.
+Proof. exact filter_reuse_refuted_l. Qed.
+Print Assumptions filter_reuse_refuted.
+
+Theorem filter_reuse_refuted_design_witness :
+  let c1 := cl [2] true false true None in let c2 := cl [1; 3] true false true None in
+  let w1 := fst (plan_call exu 8 (exw []) c1) in
+  snd (plan_call exu 8 w1 c2) = Failed ERejected /\ is_accepted (snd (plan_call exu 8 (exw []) c2)) = true /\
+  kf_filter exu 8 w1 c2 = true.
+Proof. exact filter_reuse_refuted2_l. Qed.
+Print Assumptions filter_reuse_refuted_design_witness.
+
+(* the "frozen" plan of an earlier session refers to a collection entry that a later call extends *)
+Theorem session_plan_aliases_filter_refuted :
+  let c1 := cl [2] true false true None in let c2 := cl [1] true false true None in
+  let w1 := fst (plan_call exu 8 (exw []) c1) in let w2 := fst (plan_call exu 8 w1 c2) in
+  is_accepted (snd (plan_call exu 8 (exw []) c1)) = true /\ is_accepted (snd (plan_call exu 8 w1 c2)) = true /\
+  List.length (coll_get (w_coll w1) (0, "a"%string)) = 1 /\ List.length (coll_get (w_coll w2) (0, "a"%string)) = 2 /\
+  fset_eqb (coll_get (w_coll w1) (0, "a"%string)) (coll_get (w_coll w2) (0, "a"%string)) = false.
+Proof. exact filter_entry_of_earlier_session_grows_l. Qed.
+Print Assumptions session_plan_aliases_filter_refuted.
+
+(* links_reuse: two worlds that agree on everything but the ORDER of the links set give the same outcome (and the links
+   set is irrelevant when links=None is passed); a set that GREW changes it. *)
+Theorem links_reuse_partial : forall u fuel w1 w2 c,
+  hF w1 = hF w2 -> hO w1 = hO w2 -> w_filters w1 = w_filters w2 -> w_coll w1 = w_coll w2 ->
+  (c_links c = true -> same_links (w_links w1) (w_links w2)) ->
+  outcome_sim (snd (plan_call u fuel w1 c)) (snd (plan_call u fuel w2 c)).
+Proof. exact links_reuse_partial_l. Qed.
+Print Assumptions links_reuse_partial.
+
+Theorem links_reuse_refuted :
+  let c1 := cl [4] true true false None in let c2 := cl [5] true true false None in
+  let w1 := fst (plan_call exu 8 (exw []) c1) in
+  hF w1 = hF (exw []) /\ w_links w1 = [Linner] /\
+  seen_links (snd (plan_call exu 8 w1 c2)) = [Linner] /\ seen_links (snd (plan_call exu 8 (exw []) c2)) = [] /\
+  is_accepted (snd (plan_call exu 8 w1 c2)) = true /\ is_accepted (snd (plan_call exu 8 (exw []) c2)) = true /\
+  kf_links (exw []) w1 c2 = true.
+Proof. exact links_reuse_refuted_l. Qed.
+Print Assumptions links_reuse_refuted.
+
+Theorem links_reuse_refuted_validation :
+  let c1 := cl [6] true true false None in let c2 := cl [5] true true false None in
+  let w1 := fst (plan_call exu 8 (exw [Linner]) c1) in
+  w_links w1 = [Linner; Lleft] /\ snd (plan_call exu 8 w1 c2) = Failed ELinks /\
+  is_accepted (snd (plan_call exu 8 (exw [Linner]) c2)) = true /\ kf_links (exw [Linner]) w1 c2 = true.
+Proof. exact links_reuse_refuted2_l. Qed.
+Print Assumptions links_reuse_refuted_validation.
+
+(* The reuse half of C07 outside the two known-defect domains, for ALL universes, worlds, histories and calls: after any
+   sequence of copy_features=True calls, a call given the same objects has the outcome of the call given pristine ones.
+   (kf_filter_touched is wider than what the harness attributes to the known finding, kf_filter: the narrower predicate
+   is validated by correspondence only -- chk_kf in harness/c07.py.) *)
+Theorem args_reuse_partial : forall u fuel w0 cs c, w_coll w0 = [] -> forallb c_copy cs = true ->
+  kf_links w0 (after world call outcome (plan_call u fuel) w0 cs) c = false ->
+  kf_filter_touched u fuel (after world call outcome (plan_call u fuel) w0 cs) c = false ->
+  outcome_sim (snd (plan_call u fuel (after world call outcome (plan_call u fuel) w0 cs) c)) (snd (plan_call u fuel w0 c)).
+Proof. exact args_reuse_partial_l. Qed.
+Print Assumptions args_reuse_partial.
+
+(* with copy_features=False the written feature changes a later call (Options.add conflict); with the default it does not *)
+Theorem feature_reuse_nocopy_refuted :
+  let api1 : cols := [("K"%string, ["a"%string; "b"%string])] in
+  let api2 : cols := [("K"%string, ["a"%string; "b"%string; "z"%string])] in
+  let c1 := cl [1] false false false (Some api1) in let c2 := cl [1] false false false (Some api2) in
+  let w1 := fst (plan_call exu 8 (exw []) c1) in
+  nth_error (hF w1) 1 = Some {| f_name := "a"; f_opt := 1; f_cfw := Some [0]; f_flag := true; f_dtype := None; f_uuid := 0;
+                                f_link := None |} /\
+  nth_error (hO w1) 1 = Some {| og := [("x"%string, VZ 2); (api_key, VCols api1)]; oc := [] |} /\
+  snd (plan_call exu 8 w1 c2) = Failed EAddConflict /\ is_accepted (snd (plan_call exu 8 (exw []) c2)) = true /\
+  is_accepted (snd (plan_call exu 8 (fst (plan_call exu 8 (exw []) (cl [1] true false false (Some api1))))
+                              (cl [1] true false false (Some api2)))) = true.
+Proof. exact feature_reuse_nocopy_refuted_l. Qed.
+Print Assumptions feature_reuse_nocopy_refuted.
+
+(* hypotheses of args_reuse_partial are satisfiable / the narrower domain: repeating a call with the same GlobalFilter *)
+Example C07_args_example :
+  let cs := [cl [2] true false true None; cl [2] true false true None] in
+  let c := cl [2] true false true None in
+  kf_links (exw []) (after world call outcome (plan_call exu 8) (exw []) cs) c = false /\
+  kf_filter exu 8 (after world call outcome (plan_call exu 8) (exw []) cs) c = false /\
+  kf_filter_touched exu 8 (after world call outcome (plan_call exu 8) (exw []) cs) c = true /\
+  outcome_eqb (snd (plan_call exu 8 (after world call outcome (plan_call exu 8) (exw []) cs) c))
+              (snd (plan_call exu 8 (exw []) c)) = true.
+Proof. exact args_reuse_example_l. Qed.
+
+Example C07_args_example_outside_domains :
+  let cs := [cl [0] true false true None; cl [4] true false false None] in
+  let c := cl [5] true true false None in
+  kf_links (exw [Linner]) (after world call outcome (plan_call exu 8) (exw [Linner]) cs) c = false /\
+  kf_filter_touched exu 8 (after world call outcome (plan_call exu 8) (exw [Linner]) cs) c = false /\
+  is_accepted (snd (plan_call exu 8 (after world call outcome (plan_call exu 8) (exw [Linner]) cs) c)) = true.
+Proof. vm_compute. repeat split; reflexivity. Qed.
